@@ -130,19 +130,34 @@ struct Supervisor {
         while (n) { ssize_t k = ::write(fd, p, n); if (k <= 0) { if (errno == EINTR) continue; return false; } p += k; n -= (size_t)k; }
         return true;
     }
+    static bool readLine(FILE* fi, std::string& line) {
+        static char* buf = nullptr;
+        static size_t cap = 0;
+        ssize_t len = getline(&buf, &cap, fi);
+        if (len <= 0) return false;
+        line.assign(buf, (size_t)len);
+        if (!line.empty() && line.back() == '\n') line.pop_back();
+        return true;
+    }
+    // batch protocol: parent sends "<n>\n" followed by n lines; the child answers
+    //   <output lines> \x03 <stat keys, tab separated> \x05 <lines handled> [\x04 = tainted, child exits] \x01 \n
     void childLoop(int in, int out) {
         if (initChild) initChild();
         FILE* fi = fdopen(in, "r");
-        char* buf = nullptr;
-        size_t cap = 0;
-        ssize_t len;
-        while ((len = getline(&buf, &cap, fi)) > 0) {
-            std::string line(buf, (size_t)len);
-            if (!line.empty() && line.back() == '\n') line.pop_back();
-            std::string stat;
+        std::string hdr, line;
+        while (readLine(fi, hdr)) {
+            int n = atoi(hdr.c_str());
+            std::vector<std::string> lines;
+            for (int i = 0; i < n; i++) { if (!readLine(fi, line)) _exit(0); lines.push_back(line); }
+            std::string o, stat;
             bool tainted = false;
-            std::string o = handle(line, stat, tainted);
-            o += "\x03" + stat + (tainted ? "\x04" : "") + "\x01\n";
+            int done = 0;
+            for (; done < n && !tainted; done++) {
+                std::string st1;
+                o += handle(lines[done], st1, tainted);
+                stat += st1 + "\t";
+            }
+            o += "\x03" + stat + "\x05" + std::to_string(done) + (tainted ? "\x04" : "") + "\x01\n";
             if (!writeAll(out, o.data(), o.size())) _exit(0);
             if (tainted) _exit(0);
         }
@@ -164,10 +179,12 @@ struct Supervisor {
         if (fromChild >= 0) close(fromChild);
         toChild = fromChild = -1; pid = -1;
     }
-    // returns: 0 answered, 1 hang, 2 died; answer appended to out
-    int ask(const std::string& line, std::string& out, std::string& what, bool& respawn) {
+    // returns: 0 answered, 1 hang, 2 died; answer appended to out; 'done' = lines of the batch that were handled
+    int ask(const std::vector<std::string>& lines, size_t from, size_t n, std::string& out, std::string& what, bool& respawn, size_t& done) {
         respawn = false;
-        std::string m = line + "\n";
+        done = 0;
+        std::string m = std::to_string(n) + "\n";
+        for (size_t i = 0; i < n; i++) { m += lines[from + i]; m += '\n'; }
         if (!writeAll(toChild, m.data(), m.size())) { what = "crash:pipe"; return 2; }
         std::string acc;
         char buf[65536];
@@ -186,6 +203,8 @@ struct Supervisor {
             if (acc.size() >= 2 && acc.compare(acc.size() - 2, 2, "\x01\n") == 0) {
                 acc.resize(acc.size() - 2);
                 if (!acc.empty() && acc.back() == '\x04') { respawn = true; acc.pop_back(); }
+                size_t p5 = acc.rfind('\x05');
+                if (p5 != std::string::npos) { done = (size_t)atol(acc.c_str() + p5 + 1); acc.resize(p5); }
                 size_t p3 = acc.rfind('\x03');
                 if (p3 != std::string::npos) {
                     std::string stat = acc.substr(p3 + 1);
@@ -203,30 +222,47 @@ struct Supervisor {
             }
         }
     }
+    long fails = 0, nlines = 0, respawns = 0;
+    int batch = 32;
+    // handle lines[from, from+n): on a hang/crash of a batch the lines are re-run one at a time to find the culprit
+    void runBatch(const std::vector<std::string>& lines, size_t from, size_t n) {
+        while (n > 0) {
+            std::string out, what;
+            bool respawn = false;
+            size_t done = 0;
+            int r = ask(lines, from, n, out, what, respawn, done);
+            if (r != 0) {
+                reap(true);
+                spawn();
+                if (n == 1) {
+                    fails++;
+                    out = onFail ? onFail(lines[from], what) : std::string();
+                    if (!out.empty()) fwrite(out.data(), 1, out.size(), stdout);
+                    return;
+                }
+                for (size_t i = 0; i < n; i++) runBatch(lines, from + i, 1);
+                return;
+            }
+            if (!out.empty()) fwrite(out.data(), 1, out.size(), stdout);
+            if (respawn) { respawns++; reap(false); spawn(); }
+            if (done == 0 && !respawn) done = n;   // defensive
+            from += done;
+            n -= done;
+        }
+    }
     int run() {
         signal(SIGPIPE, SIG_IGN);
         spawn();
         std::string line;
-        long fails = 0, lines = 0, respawns = 0;
+        std::vector<std::string> lines;
         while (std::getline(std::cin, line)) {
-            std::string out, what;
-            bool respawn = false;
-            lines++;
-            int r = ask(line, out, what, respawn);
-            if (r != 0) {
-                fails++;
-                out = onFail ? onFail(line, what) : std::string();
-                reap(true);
-                spawn();
-            } else if (respawn) {
-                respawns++;
-                reap(false);
-                spawn();
-            }
-            if (!out.empty()) fwrite(out.data(), 1, out.size(), stdout);
+            nlines++;
+            lines.push_back(line);
+            if ((int)lines.size() >= batch) { runBatch(lines, 0, lines.size()); lines.clear(); }
         }
+        if (!lines.empty()) runBatch(lines, 0, lines.size());
         reap(true);
-        json s = {{"t", "summary"}, {"lines", lines}, {"child_failures", fails}, {"respawns", respawns}, {"counts", counts}};
+        json s = {{"t", "summary"}, {"lines", nlines}, {"child_failures", fails}, {"respawns", respawns}, {"counts", counts}};
         emit(s);
         fflush(stdout);
         return 0;
